@@ -276,3 +276,28 @@ CHECKS = {
         "jobs": [{"pkg": "c04deque", "kinds": ["deque", "deque-any"], "scale_thorough": 10, "shards_thorough": 16, "fuzz": [("FuzzDeque", "deque")]}],
     },
 }
+
+# Later additions to the generators (rounds 5-6 of the seeded changes), appended to the rule texts.
+RULE_ADDENDA = {
+    "C01": " Key kinds also include pointer keys (the comparator dereferences) and []byte keys (a type == cannot compare).",
+    "C02": " Key kinds as in C01 (incl. pointer and []byte keys); a 'churn' step performs exactly 2^8 or 2^16 structural changes away from the iterators between two Next calls.",
+    "C03": " Key kinds as in C01 (incl. pointer and []byte keys).",
+    "C04": " Elements are padded pointer-holding structs so that weak pointers to popped elements can be required to clear after a GC; 'bulk_push' steps build backlogs of 1000-5000 items; iterations may be nested; Grow/Shrink arguments go up to MaxInt.",
+    "C05": " Priorities are ints or []int (pointer-holding); 'bulk' steps push and pop 1000-5000 items (heap and queue).",
+    "C06": " Steps also include 'relocate' (the List value is moved to another address), 'bulk' (hundreds of nodes) and reuse of cleared handles; kind list-gc: nodes only reachable through the list survive three GCs with their pointer-holding payload intact.",
+    "C07": " Inputs include NaN, negative and huge counts, 1025-2600-item inputs for Chunk/Last; callbacks are counted; results must be independent of their inputs (scribbling); argument slices must be left intact; constructors are read with contexts that end before, between and during calls.",
+    "C09": " Kind panic-abandon: a consumer whose callback panics and whose deferred Close runs: still exactly one Close per stream.",
+    "C10": " Close errors include context.Canceled / DeadlineExceeded themselves; kind pipe-gc (a properly closed sender's error survives GCs and finalizers); the package also runs for GOARCH=386.",
+    "C11": " Plans also include sources whose Close takes time, batchSize MaxInt, 'long' streams of hundreds of batches with a bound on batch capacity, and BatchFunc predicates that take 2 x maxWait (old timers); a Next that has not returned after 10 s of active time is a 'stuck' violation.",
+    "C12": " Inputs may be the library's own streams or non-comparable struct values; failing inputs may fail at the same instant with errors of different concrete types; kind stream-merge-wide: 300 inputs that each have to deliver before any of them ends. Also runs for GOARCH=386.",
+    "C13": " Errors of mixed concrete types, n up to 8192 incl. multiples of 64, nested Do/Map inside the callbacks. Also runs for GOARCH=386.",
+    "C14": " Also: 'lockstep' sources that only produce once the consumer has taken the previous result (bubble, and kind map-lockstep on the real clock), contexts that are already done at construction, f errors with a value attached. Also runs for GOARCH=386.",
+    "C15": " Heap elements may hold pointers; setups include a big deque drained to a quarter; one call past the end may precede the mid ops; a second iterator may be open.",
+    "C16": " The cond may be stored by value after construction ('by_value'); broadcast-storm variants with a shared RLocker and bursts of simultaneous Signals. Also runs for GOARCH=386.",
+    "C17": " Real-clock kinds in c17old: pot-old-timers, pot-trigger-real (a trigger aimed at the end of a run), stop-reentrant (a group function that calls into the group while StopAndWait waits), group-dropped (a Group nobody references keeps running until stopped, across GCs). Also runs for GOARCH=386.",
+    "C18": " sync-storm modes: loadorstore, loadanddelete, nomatch (a failing CompareAndDelete/CompareAndSwap is invisible to concurrent observers), watchable with 1-3 setters; future waiters that arrive late with deadline contexts. Also runs for GOARCH=386.",
+    "C19": " Also: inputs of thousands of items (strategy switches), stateful callbacks (call counts), huge arguments, sampling over populations up to MaxInt64/2, kind sample-race (package-level xrand functions from several goroutines under the race detector).",
+    "C20": " Also: periods with sub-millisecond parts and near MaxInt64, kind ticker-reset-storm (real clock: up to 16 goroutines reset one ticker hundreds of times, then to one hour: no tick stamped after the last switch).",
+}
+for _id, _txt in RULE_ADDENDA.items():
+    CHECKS[_id]["rule"] = CHECKS[_id]["rule"] + _txt
